@@ -438,7 +438,7 @@ def cls_func_attrs(x):
         for p in b.parts:
             fam = p.funcs[0].tag.split('/')[0]
             k = seen[fam] = seen.get(fam, -1) + 1
-            if fam in ('str', 'str2', 'bytes', 'fmt', 'cmp', 'idx', 'unary', 'arith') and k % 2:
+            if fam in ('str', 'str2', 'bytes', 'fmt', 'cmp', 'idx', 'arith') and k % 2:
                 continue
             kept.append(p)
         b.parts = kept
